@@ -92,8 +92,8 @@ def run(ctx):
                 "body / filter / local class, one class per pin option and per add option, scripted cluster answer); "
                 "enumerated by TLC: every route x every positional class, every option class alone, against a full valid "
                 "profile and pairwise (thorough: triples on Pin/PinPath, add-option pairs, 60000 seeded points of the full "
-                "product), every URL shape x 7 methods x 11 credential situations; the same valid operations through the "
-                "bundled client with 6 credential situations; non-trivial = credentials configured, or at least one "
+                "product), every URL shape x 7 methods x 22 credential situations; the same valid operations through the "
+                "bundled client with 9 credential situations; non-trivial = credentials configured, or at least one "
                 "malformed component, or issued through the client; distinct by abstract request")
     ctx.assumptions = [
         "the recorder behind the API stands for the cluster: 'performs no cluster operation' is observed as 'no RPC reached "
@@ -101,8 +101,8 @@ def run(ctx):
         "POST /add is exercised with one small file, non-sharded, without wrap-with-directory/progress (its streaming body "
         "is one document only then); chunker/hash values are not classified (decided inside the adder, C13)",
         "trailing-slash redirects (StrictSlash), encoded slashes and the libp2p-http endpoint are not covered",
-        "option values the code documents as defaulted (mode, user-allocations) are counted as malformed, as the statement "
-        "reads; filter lists mixing known and unknown names and ?local=<garbage> are not classified",
+        "option values the code documents as defaulted (mode, user-allocations, ?local= other than true/false, filter lists "
+        "mixing known and unknown names) are counted as malformed, as the statement reads",
     ]
     # SPEC
     cfg = "RestAPIMC_quick.cfg" if ctx.quick() else "RestAPIMC_thorough.cfg"
@@ -168,7 +168,7 @@ def key_http(rec, broken, conforms):
         return ["C11:accepted-undecodable:%s" % n for n in sorted(set(b.split("=")[0] for b in live))]
     obs = rec["obs"]
     if obs["status"] == 400 and obs["docs"] == 2 and len(obs["ops"]) == 1 and live and \
-            all(b.split("=")[0] in OPT_CLASSES and b.split("=")[0] not in LENIENT for b in live):
+            all(b.split("=")[0] in OPT_CLASSES for b in live):
         # the signature of a handler that answers 400 for an option and carries on
         return "C11:400-then-performed:%s" % route_name(req)
     if "AuthFirst" in broken:
